@@ -87,7 +87,9 @@ def check_pair(case) -> Outcome:
                     why = "depth-still-growing" if m1.tsbd != m2.tsbd else "steady-depth"
                     out.fail(f"window-start-moved-backward/{why}", f"{desc} rep {rid}: first t {a[0][0]} -> {b[0][0]} (TSBD {m1.tsbd} -> {m2.tsbd})")
                 if b[-1][0] + b[-1][1] < a[-1][0] + a[-1][1]:
-                    out.fail("window-end-moved-backward", f"{desc} rep {rid}: end {a[-1][0] + a[-1][1]} -> {b[-1][0] + b[-1][1]}")
+                    why = "/depth-still-growing" if m1.tsbd != m2.tsbd else ""
+                    out.fail(f"window-end-moved-backward{why}", f"{desc} rep {rid}: end {a[-1][0] + a[-1][1]} -> {b[-1][0] + b[-1][1]} "
+                                                                 f"(TSBD {m1.tsbd} -> {m2.tsbd})")
                 starts_b = set(db)
                 for t, d in a:
                     if b[0][0] <= t < b[-1][0] + b[-1][1] and t not in starts_b:
